@@ -169,7 +169,8 @@ def prepare_sched_binary(ctx):
 class Sched:
     """K2/monitors: real code under the cooperative scheduler; a failing schedule is the replay"""
     kind = "K2"
-    def __init__(self, scenario, quick, thorough, exhaustive_limit=0, label=None, conformance=None, traces=(150, 3000), only=None):
+    def __init__(self, scenario, quick, thorough, exhaustive_limit=0, label=None, conformance=None, traces=(150, 3000), only=None, pb1=None):
+        self.pb1 = pb1        # (configs, limit) per tier: systematic single-preemption exploration (vschedrun -pb1)
         self.conformance, self.ntraces = conformance, traces   # K2: Lean trace-conformance suite for this scenario
         self.only = only      # a scenario shared by several properties prefixes its problems "Cnn:"; keep this property's
         self.scenario, self.quick, self.thorough, self.exh = scenario, quick, thorough, exhaustive_limit
@@ -213,6 +214,9 @@ class Sched:
             batches[0] += ["-traces", str(self.ntraces[0] if ctx.tier == "quick" else self.ntraces[1])]
         if self.exh and (ctx.tier == "thorough" or self.exh <= 3000):
             batches.append(["-exhaustive", "-seed", str(ctx.seed), "-limit", str(self.exh if ctx.tier == "quick" else self.exh * 20)])
+        if self.pb1:
+            ncfg, lim = self.pb1[0] if ctx.tier == "quick" else self.pb1[1]
+            batches.append(["-pb1", str(ncfg), "-seed", str(ctx.seed), "-limit", str(lim)])
         for args in batches:
             for rec in self._run(binp, args):
                 if rec.get("summary"):
